@@ -120,16 +120,33 @@ func (w *VerifWorld) VerifTwQueued() int { return w.Srv.tw.VerifQueued() }
 // minus closing the old namespace after 60 s and starting health checks (both are
 // free-running goroutines).
 func (w *VerifWorld) VerifReload(cfg *models.Namespace, patch func(ns *Namespace)) error {
+	if err := w.VerifReloadPrepare(cfg, patch); err != nil {
+		return err
+	}
+	w.VerifReloadCommit()
+	return nil
+}
+
+// VerifReloadPrepare is the first half of VerifReload (real ReloadNamespacePrepare + pool
+// patching); the new namespace is not visible yet.
+func (w *VerifWorld) VerifReloadPrepare(cfg *models.Namespace, patch func(ns *Namespace)) error {
 	if err := w.M.ReloadNamespacePrepare(cfg); err != nil {
 		return err
 	}
-	_, other, index := w.M.switchIndex.Get()
+	_, other, _ := w.M.switchIndex.Get()
 	if patch != nil {
 		patch(w.M.namespaces[other].GetNamespace(cfg.Name))
 	}
+	return nil
+}
+
+// VerifReloadCommit is the second half: the generation switch of ReloadNamespaceCommit (two
+// atomic stores), callable from any goroutine - in particular from inside a backend call or
+// a response write of a running command, which is how a commit lands "during command k".
+func (w *VerifWorld) VerifReloadCommit() {
+	_, _, index := w.M.switchIndex.Get()
 	w.M.reloadPrepared.Set(false)
 	w.M.switchIndex.Set(!index)
-	return nil
 }
 
 // VerifChangeIndex exposes Namespace.namespaceChangeIndex.
